@@ -430,16 +430,26 @@ func (d XDoc) xml(f XFile) string {
 			bm = " bitmask=\"true\""
 		}
 		fmt.Fprintf(&b, "    <enum name=\"%s\"%s>\n      <description>enum</description>\n", string(e.Name), bm)
-		for _, en := range e.Entries {
+		for ei, en := range e.Entries {
+			if ei == 1 {
+				b.WriteString("      <!-- <entry value=\"4242\" name=\"RETIRED_ENTRY\"><description>gone</description></entry> -->\n")
+			}
 			fmt.Fprintf(&b, "      <entry value=\"%s\" name=\"%s\"><description>entry</description></entry>\n", string(en.Text), string(en.Name))
 		}
 		b.WriteString("    </enum>\n")
 	}
 	b.WriteString("  </enums>\n  <messages>\n")
-	for _, m := range f.Messages {
+	for mi, m := range f.Messages {
 		fmt.Fprintf(&b, "    <message id=\"%d\" name=\"%s\">\n      <description>message</description>\n", m.ID, string(m.Name))
+		// comments are not content, whatever they look like: retired fields and a retired extensions marker left in the file
+		if mi%3 == 0 {
+			b.WriteString("      <!-- <field type=\"uint8_t\" name=\"retired\">a retired field</field> -->\n")
+		}
 		ext := false
-		for _, fl := range m.Fields {
+		for fi, fl := range m.Fields {
+			if fi == 1 && mi%3 == 1 {
+				b.WriteString("      <!-- retired: <extensions/> <field type=\"float\" name=\"old\">gone</field> -->\n")
+			}
 			if fl.Ext && !ext {
 				b.WriteString("      <extensions/>\n")
 				ext = true
